@@ -18,9 +18,9 @@ META = dict(
                 '(prefix first, ints numerically, strings by code point, int before string); the KeyPathSet trie, modelled as the literal dict of dicts of the code, refines a mathematical set under '
                 'add/remove/in/union/intersection/difference/rebase, iteration lists exactly the members once, bool is non-emptiness, no API sequence raises (for all paths once the open dollar finding is repaired; '
                 'as the code is: for all paths without a dollar key, plus a refutation witness); traversal visits every node exactly once and the reported path looked up from the root returns the node; '
-                'pg.query(enter_selected=True) is sound and complete; canonicalize(flatten(v, False)) = v for every nested value with distinct admissible keys and no dict whose keys are exactly 0..n-1 (any depth, lists and dicts mixed). Tie: every modelled operation is run against value_location.py / hierarchical.py / pg.traverse / pg.query on the same inputs on every run '
+                'utils.traverse with arbitrary visitors logs exactly the full log cut after the first False; pg.traverse returns False iff some visitor answered STOP; pg.query is characterised exactly for enter_selected True and False; merge_tree (merge_fn=None) lookup law, idempotence and agreement with canonicalize\'s conflict-checking merge; add(include_intermediate=True) on any reachable set; canonicalize(flatten(v, False)) = v for every nested value with distinct admissible keys and no dict whose keys are exactly 0..n-1 (any depth, lists and dicts mixed). Tie: (1) a fail-closed ast translator regenerates, on every run, the bodies of KeyPath.parse, _append_key, path_str and _has_special_chars statement by statement as programs of a small imperative language (Gen/KeyPathSrc.v); interpreting them is proved equal to the model\'s parse/format, so the round-trip theorem holds for the code as translated (C10_parse_format_src); (2) every modelled operation is run against value_location.py / hierarchical.py / pg.traverse / pg.query on the same inputs on every run '
                 '(12 case kinds, exact outcome incl. error kind and set iteration order), the Unicode digit table of the model is compared with the interpreter, and the property text is evaluated on the real objects on every case.'),
-    level_note=('Partial: include_intermediate on sets that are not prefix-closed, early-stop traversal, merge_tree and canonicalize on arbitrary path-keyed dicts are modelled and checked by correspondence and oracle only (no theorem yet). '
+    level_note=('Partial: utils.merge, utils.transform, merge_into_list and the error outcomes of canonicalize on arbitrary path-keyed dicts are modelled and checked by correspondence and oracle only (no theorem yet). '
                 'Not modelled: custom key objects, bool keys, tuples, MISSING_VALUE leaves, pg.Object nodes, regex/where of pg.query, user merge functions, subtree aliasing. '
                 'Trusted: Coq kernel, stdlib DecimalZ, extraction cross-checked by vm_compute, the Python harness (generators, driver, exception canonicalisation), CPython str.isdigit/int/str comparison. '
                 'Open finding: the path key "$" collides with the trie end marker (quirk flag q_dollar).'),
@@ -1265,7 +1265,12 @@ def run(ctx):
   ctx.compare('Hier.run / KeyPath.run vs value_location.py, hierarchical.py, pg.traverse, pg.query', trees, impls, model_outs, describe=lambda c: lookup.get(id(c)))
   # direct oracle on every case
   n_or = 0
+  import time as _time
+  budget = ctx.scale(95, 1400)               # wall-clock budget (s) for the whole run; what is skipped is reported
+  skipped = 0
   for fn, args in oracle_jobs:
+    if _time.time() - ctx.t0 > budget:
+      skipped += 1; continue
     n_or += 1
     try:
       found = fn(*args)
@@ -1276,6 +1281,7 @@ def run(ctx):
     for sig, what, case in found:
       ctx.hit(sig, what, case)
   ctx.extra['oracle_evaluations'] = n_or
+  ctx.extra['oracle_jobs_skipped_for_wall_clock_budget'] = skipped
   # library exceptions that no driver expects: each is a failing input of its own
   ctx.extra['unexpected_library_exceptions'] = len(ESCAPED)
   for op, exc, msg, case in ESCAPED:
